@@ -82,6 +82,10 @@ const (
 	True   = "true"
 	False  = "false"
 	Gate   = "gate" // block until the driver releases it after the directive returned
+	// OverBar: block until every function with this decision is executing at
+	// the same time (the scenario gives it to limit+1 functions, so they can
+	// only all meet if the concurrency limit is exceeded)
+	OverBar = "overbar"
 )
 
 // Decision is the driver's answer for one invocation.
@@ -104,6 +108,8 @@ type Hooks interface {
 	CancelCtx()
 	// Gate blocks until released.
 	Gate()
+	// OverBar blocks until all over-limit barrier participants have arrived.
+	OverBar()
 }
 
 // H is the active hook set.
@@ -188,6 +194,8 @@ func Call(id string, ctx context.Context, args ...uint64) Result {
 		H.CancelCtx()
 	case Gate:
 		H.Gate()
+	case OverBar:
+		H.OverBar()
 	}
 	H.End(id, d.Kind)
 	return Result{id: id, args: args, err: d.Err}
